@@ -98,12 +98,13 @@ type Case struct {
 	Chunks []*V   `json:"chunks"`
 	Inject string `json:"inject,omitempty"` // "", dupkey, nokey, fmkey: deliberate out-of-domain construction
 	Front  string `json:"front,omitempty"`  // "" = Graph API, wf = Workflow (field mappings), chain = Chain
+	CB     bool   `json:"cb,omitempty"`     // every call carries a callback handler that drains the stream copies it receives
 }
 
 type Obs struct {
-	Input *V                  `json:"input,omitempty"`
-	Err   string              `json:"err,omitempty"` // harness-level problem (compile error ...)
-	P     [4]POut             `json:"p"`             // Invoke, Stream, Collect, Transform
+	Input *V                   `json:"input,omitempty"`
+	Err   string               `json:"err,omitempty"` // harness-level problem (compile error ...)
+	P     [4]POut              `json:"p"`             // Invoke, Stream, Collect, Transform
 	Calls [4]map[string]string `json:"calls"`
 }
 
@@ -176,6 +177,8 @@ func (p *Prog) coqBase() string {
 		return lib.CoqList(ks)
 	}
 	switch p.Op {
+	case "skip", "pass":
+		return "SId"
 	case "node":
 		return lib.CoqApp("SNode", p.W.coq(), lib.CoqN(uint64(p.N.ID)), p.N.coq())
 	case "sub":
@@ -193,6 +196,9 @@ func (p *Prog) coqBase() string {
 		c := lib.CoqApp("Build_lspec", coqBool(p.C.Collect), lib.CoqNat(p.C.Bound), coqBool(p.C.Fail))
 		// every node makes the value at least one character longer: Bound+2 rounds are never reached
 		return lib.CoqApp("SLoop", lib.CoqN(uint64(p.C.ID)), c, p.Kids[0].coq(), lib.CoqNat(p.C.Bound+2))
+	case "multi":
+		c := lib.CoqApp("Build_cspec", coqBool(p.C.Collect), lib.CoqNat(len(p.Kids)), coqBool(p.C.Fail))
+		return lib.CoqApp("SMulti", lib.CoqN(uint64(p.C.ID)), c, kids())
 	case "branch":
 		c := lib.CoqApp("Build_cspec", coqBool(p.C.Collect), lib.CoqNat(len(p.Kids)), coqBool(p.C.Fail))
 		return lib.CoqApp("SBranch", lib.CoqN(uint64(p.C.ID)), c, kids())
@@ -293,7 +299,7 @@ func (engine) Run(ci any) lib.Result {
 	if c.Kind == "pack" {
 		r = pack(c.Spec, rec)
 	} else {
-		r, err = compile(c.Prog, c.Front, c.DAG, rec)
+		r, err = compile(c.Prog, c.Front, c.DAG, c.CB, rec)
 		if err != nil {
 			obs.Err = "compile: " + err.Error()
 			res.Obs, res.Oracle, res.Sig = obs, obs.Err, "harness-compile"
@@ -379,14 +385,20 @@ func (engine) Run(ci any) lib.Result {
 				calls = lib.CoqSome(lib.CoqPair("[(999%N, 0%N)]", "[]")) // flagged as a mismatch
 			}
 		}
-		res.CoqTerm = lib.CoqApp("CaseProg", c.Prog.coq(), lib.CoqList(mapCoq(c.Chunks)),
-			coqRobs(obs.P[0]), coqRobs(obs.P[1]), coqRobs(obs.P[2]), coqRobs(obs.P[3]), calls)
 		st := stats(c.Prog)
+		schunks := "None"
+		if allOK && st.pars == 0 && c.Inject == "" {
+			// no merge anywhere: the chunk boundaries of the output are determined
+			schunks = lib.CoqSome(lib.CoqPair(lib.CoqList(mapCoq(obs.P[1].Chunks)), lib.CoqList(mapCoq(obs.P[3].Chunks))))
+			tags = append(tags, "exactchunks:true")
+		}
+		res.CoqTerm = lib.CoqApp("CaseProg", c.Prog.coq(), lib.CoqList(mapCoq(c.Chunks)),
+			coqRobs(obs.P[0]), coqRobs(obs.P[1]), coqRobs(obs.P[2]), coqRobs(obs.P[3]), calls, schunks)
 		front := c.Front
 		if front == "" {
 			front = "graph"
 		}
-		tags = append(tags, fmt.Sprintf("nodes:%d", st.nodes), fmt.Sprintf("dag:%v", c.DAG), "front:"+front)
+		tags = append(tags, fmt.Sprintf("nodes:%d", st.nodes), fmt.Sprintf("dag:%v", c.DAG), "front:"+front, fmt.Sprintf("callbacks:%v", c.CB))
 		for _, f := range st.features {
 			tags = append(tags, "has:"+f)
 		}
@@ -419,7 +431,7 @@ func natCount(n [4]bool) int {
 
 type pstats struct {
 	nodes, derived, pars, branches, keys int
-	features                              []string
+	features                             []string
 }
 
 func stats(p *Prog) pstats {
@@ -451,6 +463,15 @@ func stats(p *Prog) pstats {
 			if q.C.Collect {
 				feat["streambranch"] = true
 			}
+		case "multi":
+			st.branches++
+			st.pars++
+			feat["multibranch"] = true
+		case "pass":
+			st.nodes++
+			feat["passthrough"] = true
+		case "skip":
+			feat["emptyalt"] = true
 		case "loop":
 			st.branches++
 			feat["loop"] = true
@@ -561,7 +582,7 @@ func failSig(c *Case, o Obs) string {
 		if strings.Contains(o.P[0].Msg, "duplicated key") {
 			shared := false
 			c.Prog.walk(func(q *Prog) {
-				if q.Op != "par" {
+				if q.Op != "par" && q.Op != "multi" {
 					return
 				}
 				seen := map[int]bool{}
